@@ -324,6 +324,33 @@ type byzcfg struct {
 	// collide: the two payloads of round 1 are a pair whose digests agree on the first ("prefix8")
 	// or the last ("suffix8") 8 bytes
 	collide string
+	// script: a fixed sequence of Byzantine injections executed first (then the search continues
+	// with deliveries and the remaining budget). "alias": two Byzantine nodes whose identifiers
+	// agree modulo 256 (byz[0], byz[1]) try to pass the equivocation of one off as vouchers for the
+	// other.
+	script string
+	// lenient: see rcfg.Lenient; adds the marker-only payload (an MPC message without content) to
+	// the deviator's alphabet
+	lenient string
+	// perm: a node -> party assignment that is not monotone (parties of nodes 1,2,3,... = 3,1,2,...)
+	perm bool
+}
+
+func (b byzcfg) scripted() []Event {
+	if b.script != "alias" {
+		return nil
+	}
+	lo, hi := b.byz[0], b.byz[1]
+	A, B := b.honest[0], b.honest[1]
+	X, Y := b.body(1, 'x'), b.body(1, 'y')
+	return []Event{
+		{Kind: 'B', From: hi, To: A, Data: mpcPayload(X)},
+		{Kind: 'B', From: hi, To: B, Data: mpcPayload(Y)},
+		{Kind: 'B', From: hi, To: A, Data: ackWire(1, lo, digestOf(Y))},
+		{Kind: 'B', From: hi, To: B, Data: ackWire(1, lo, digestOf(X))},
+		{Kind: 'B', From: lo, To: A, Data: mpcPayload(Y)},
+		{Kind: 'B', From: lo, To: B, Data: mpcPayload(X)},
+	}
 }
 
 var collisions = map[string][2]string{
@@ -355,7 +382,16 @@ func (b byzcfg) rc() rcfg {
 	if b.outsider != 0 {
 		all = append(all, b.outsider)
 	}
-	return rcfg{Sign: b.sign, Participants: parts, Honest: b.honest, All: all, T: b.t}
+	rc := rcfg{Sign: b.sign, Participants: parts, Honest: b.honest, All: all, T: b.t, Lenient: b.lenient}
+	if b.perm {
+		rc.PartyOf = map[uint16]uint16{}
+		sorted := append([]uint16(nil), all...)
+		sort.Slice(sorted, func(i, j int) bool { return sorted[i] < sorted[j] })
+		for i, n := range sorted {
+			rc.PartyOf[n] = sorted[(i+len(sorted)-1)%len(sorted)] + 100
+		}
+	}
+	return rc
 }
 
 func (b byzcfg) actions() []Event {
@@ -366,6 +402,21 @@ func (b byzcfg) actions() []Event {
 			for _, r := range b.rounds {
 				for _, t := range tags {
 					evs = append(evs, Event{Kind: 'B', From: bz, To: h, Data: mpcPayload(b.body(r, t))})
+				}
+			}
+		}
+	}
+	if b.lenient != "" {
+		for _, bz := range b.byz {
+			for _, h := range b.honest {
+				evs = append(evs, Event{Kind: 'B', From: bz, To: h, Data: "\xff"})
+			}
+		}
+		// acknowledgements for the digest of the empty payload
+		for _, bz := range b.byz {
+			for _, h := range b.honest {
+				for _, ab := range b.byz {
+					evs = append(evs, Event{Kind: 'B', From: bz, To: h, Data: ackWire(1, ab, digestOf(nil))})
 				}
 			}
 		}
@@ -437,6 +488,7 @@ func byzCase(prop string, b byzcfg, first int, nfirst int) harness.Case {
 		if b.honestBc {
 			init = append(init, Event{Kind: 'S', From: b.honest[0], Bcast: true, Data: string(bcastBody(b.rounds[0], byte(b.honest[0])))})
 		}
+		init = append(init, b.scripted()...)
 		c.Exec(fmt.Sprintf("[byz] %s first=%d", b.name, first))
 		s := &searcher{c: c, cfg: cfg, init: init, prefix: b.name + "#"}
 		isPart := map[uint16]bool{}
@@ -607,8 +659,13 @@ func gen(c *harness.C) []harness.Case {
 				{name: "N3", honest: []uint16{1, 2}, byz: []uint16{3}, outsider: 9, rounds: []uint8{1}, honestBc: true, budget: 4},
 				{name: "N4", honest: []uint16{1, 2, 3}, byz: []uint16{4}, outsider: 9, rounds: []uint8{1}, budget: 4},
 				{name: "N4b2", honest: []uint16{1, 2}, byz: []uint16{3, 4}, rounds: []uint8{1}, budget: 4},
+				{name: "N3-perm-sign", sign: true, honest: []uint16{1, 2}, byz: []uint16{3}, outsider: 9, rounds: []uint8{1}, honestBc: true, budget: 3, perm: true},
+				{name: "N3-perm", honest: []uint16{1, 2}, byz: []uint16{3}, rounds: []uint8{1}, honestBc: true, budget: 3, perm: true},
+				{name: "N3-lenient-p2p", honest: []uint16{1, 2}, byz: []uint16{3}, rounds: []uint8{1}, budget: 2, lenient: "p2p"},
+				{name: "N3-lenient-bcast", honest: []uint16{1, 2}, byz: []uint16{3}, rounds: []uint8{1}, budget: 3, lenient: "bcast"},
 				{name: "N3-prefix-collision", honest: []uint16{1, 2}, byz: []uint16{3}, rounds: []uint8{1}, budget: 4, collide: "prefix8"},
 				{name: "N3-suffix-collision", honest: []uint16{1, 2}, byz: []uint16{3}, rounds: []uint8{1}, budget: 4, collide: "suffix8"},
+				{name: "N4b2-alias-scripted", honest: []uint16{2, 3}, byz: []uint16{1, 257}, rounds: []uint8{1}, budget: 1, script: "alias"},
 				{name: "N3t2", honest: []uint16{1, 2}, byz: []uint16{3}, rounds: []uint8{1}, budget: 3, t: 2},
 				{name: "N4t2", honest: []uint16{1, 2, 3}, byz: []uint16{4}, rounds: []uint8{1}, budget: 3, t: 2},
 			}
@@ -628,6 +685,9 @@ func gen(c *harness.C) []harness.Case {
 		}
 		for _, b := range bs {
 			n := len(b.actions())
+			if b.script != "" {
+				n = 0 // the injections are fixed: one search over the deliveries
+			}
 			for f := -1; f < n; f++ {
 				cases = append(cases, byzCase(prop, b, f, n))
 			}
